@@ -212,7 +212,7 @@ func transTmplFuncs(s *expr.HTTPServiceExpr) map[string]any {
 // that are not part of the multipart body (headers, params and cookies) from
 // the decoded request elements. It is the same code the payload constructors
 // use so that aliased primitive types are converted.
-func multipartFieldCode(init *InitData) string {
+func multipartFieldCode(init *InitData, payloadVar string) string {
 	var initArgs []*codegen.InitArgData
 	for _, arg := range init.ServerArgs {
 		if arg.FieldName == "" {
@@ -227,7 +227,7 @@ func multipartFieldCode(init *InitData) string {
 			FieldType:    arg.FieldType,
 		})
 	}
-	c, _, err := codegen.InitStructFields(initArgs, "(*p)", "", init.ReturnTypePkg)
+	c, _, err := codegen.InitStructFields(initArgs, "(*"+payloadVar+")", "", init.ReturnTypePkg)
 	if err != nil {
 		panic(err) // bug
 	}
